@@ -21,8 +21,9 @@ META = {
     "level_note": "Codec bytes and digests are observed (token equality), not modelled. HET/BET bit-packing is not modelled (lookups of "
                   "builder-made V3/V4 archives are observed through find_file/read_file only). Key derivation is checked on the model "
                   "and by the round trip itself, not per trace event. ADPCM (lossy) methods: once a lossy stage was applied only result "
-                  "class and length are demanded. quick = 150 configurations (slice through version x shift in {0,3,8} x one more dimension, + 24 seed-rotated draws of the 31 104); thorough = "
-                  "every (version, shift, method, enc) x 2 rotations of the remaining 24 option combinations (2 886 of 31 104), not the whole product.",
+                  "class and length are demanded. quick = 144 configurations (slice through version x shift in {0,3,8} x one more dimension, + 24 seed-rotated draws of the 31 104); thorough = "
+                  "the full product of version x shift x method x enc x crc x attrs (7 776) with the (listfile, tablecomp) pair rotating by coordinate sum + seed: "
+                  "four consecutive seeds enumerate the whole 31 104-configuration product.",
     "technique": "TLA+ writer/reader model checked by TLC; TLC-enumerated configurations replayed on the real builder/reader; trace validation by TLC",
     "design_ref": "DESIGN.md section 5, C01",
     "crates": ["c01"],
@@ -58,6 +59,13 @@ def mc_nocov(ctx, module, cfg, workers=8, timeout=600, expect_violation=None):
 def sig(b):
     r = b.get("rec") or {}
     why = str(b.get("why", "")).strip().strip('"')
+    import os
+    # rehearsal of "finding fixed": C01_ASSUME_FIXED=<substring of why> makes matching rejections unmatched by any
+    # known finding, exactly as status "fixed" will (used to test the patched worktree while the unchanged tree
+    # still needs the finding as "known")
+    af = os.environ.get("C01_ASSUME_FIXED")
+    if af and af in why:
+        why = "regression-of-fixed-finding:" + why
     s = {"why": why, "ev": r.get("ev")}
     if r.get("ev") == "File":
         s["layout"] = "sectored" if len(r.get("secs", [])) > 1 else "single"
@@ -65,15 +73,35 @@ def sig(b):
     return s
 
 
+def fix_applied():
+    """Does the tree under test carry the F-C01-a fix (COMPRESS set for every sectored file in write_file)?"""
+    import os
+    src = os.path.join(core.repo_root(), "file-formats/archives/wow-mpq/src/builder.rs")
+    try:
+        t = open(src).read()
+    except OSError:
+        return False
+    i = t.find("// Multi-sector file")
+    j = t.find("// Process each sector", i)
+    return i >= 0 and "flags |= BlockEntry::FLAG_COMPRESS;" in t[i:j if j > i else i + 1500]
+
+
 def stage_a(ctx):
     import concurrent.futures as cf
     rc, text = ctx.tlc("MC_MpqBuildHash", "MC_MpqBuildHash", workers=1, timeout=300, tag="mc-hash")
     if "HASH_TABLES_VERIFIED" not in text or "No error has been found" not in text:
         raise core.ToolError("stage A: literal name-hash tables disagree with the MpqCrypto reference:\n" + core._tail(text))
-    # quick: the as-is model + the negative control; thorough adds the limit region (sector size 4096) and FlagFix
-    jobs = [("MC_MpqBuild", 7, None), ("MC_MpqBuild_neg", 1, "NegNoFlagDeviation")]
+    # Which configuration describes the code: FlagFix = FALSE (as-is, with the named deviation DevSectoredNoCompressFlag and
+    # the negative control that TLC finds its counterexample) until fixes/C01-sectored-compress-flag.patch is in the tree,
+    # FlagFix = TRUE (no such deviation: FixRemovesDeviation) afterwards.  quick checks that one; thorough checks both
+    # and the limit region (sector size 4096).
+    fixed = fix_applied()
+    ctx.notes.append("tree under test carries the F-C01-a fix: %s" % fixed)
+    main = "MC_MpqBuild_fixed" if fixed else "MC_MpqBuild"
+    other = "MC_MpqBuild" if fixed else "MC_MpqBuild_fixed"
+    jobs = [(main, 7, None), ("MC_MpqBuild_neg", 1, "NegNoFlagDeviation")]
     if ctx.thorough:
-        jobs = [("MC_MpqBuild", 3, None), ("MC_MpqBuild_limits", 2, None), ("MC_MpqBuild_fixed", 2, None),
+        jobs = [(main, 3, None), ("MC_MpqBuild_limits", 2, None), (other, 2, None),
                 ("MC_MpqBuild_neg", 1, "NegNoFlagDeviation")]
     with cf.ThreadPoolExecutor(max_workers=4) as ex:
         futs = [ex.submit(mc_nocov, ctx, "MC_MpqBuild", cfg, w, 1200, neg) for cfg, w, neg in jobs]
@@ -94,7 +122,7 @@ def run(ctx, cases_override=None):
     else:
         cases, ncases = ctx.gen("Gen_MpqBuild")
     binary = ctx.build("c01")
-    trace = ctx.harness(binary, cases, timeout=1700)
+    trace = ctx.harness(binary, cases, timeout=1750)
     # shard by sector size: SectorSize is a constant of MpqBuild
     by_shift, cur = {}, None
     samples, kinds, distinct = [], {}, set()
@@ -123,7 +151,7 @@ def run(ctx, cases_override=None):
         with open(p, "w") as f:
             f.write("".join(by_shift[sh]))
         n = len(by_shift[sh])
-        return c.validate("Trace_MpqBuild", p, env={"C01_S": 512 << sh}, shards=max(1, min(5, n // 500)))
+        return c.validate("Trace_MpqBuild", p, env={"C01_S": 512 << sh, "C01_FLAGFIX": "1" if fix_applied() else "0"}, shards=max(1, min(5, n // 2000)) if not ctx.thorough else max(1, min(4, n // 20000)))
 
     with cf.ThreadPoolExecutor(max_workers=9) as ex:
         for res in ex.map(validate_shift, sorted(by_shift)):
@@ -138,7 +166,13 @@ def run(ctx, cases_override=None):
         "evaluations": events,
         "distinct_nontrivial": len(distinct),
         "rule": "one evaluation = one recorded event (Build/Open/File with 4 spelling reads/Absent/List) judged by TLC; "
-                "non-trivial = distinct (configuration, length class, content class) of File events",
+                "non-trivial = distinct (configuration, length class, content class) of File events; "
+                + (f"configurations enumerated this run: {ncases} of the 31104 of the property's quantifier "
+                   "(thorough: full product of 6 dimensions, (listfile, tablecomp) by coordinate sum + seed -- seeds s..s+3 together cover all 31104)"
+                   if ctx.thorough else
+                   f"configurations enumerated this run: {ncases} of 31104 (quick slice + seed-rotated draws)"),
+        "configurations_enumerated": ncases,
+        "configurations_in_quantifier": 31104,
         "cases_generated_by_tlc": ncases,
         "events_by_kind": kinds,
         "exhaustive": False,
